@@ -49,7 +49,7 @@ FKM1 = [None, 0.1, 10.]
 # ------------------------------------------------------------------ alphabets
 def ls_configs(tier):
     out = []
-    c1s, c2s = ([1e-4, 0.1], [0.1, 0.9]) if tier == "quick" else ([1e-4, 1e-2, 0.1], [0.1, 0.5, 0.9])
+    c1s, c2s = ([1e-4, 0.1], [0.1, 0.9]) if tier == "quick" else ([1e-4, 0.1], [0.1, 0.5, 0.9])
     prefs = [None, 1., 10.] if tier == "quick" else [None, 0.1, 1., 10.]
     maxs = [1e30, 1.] if tier == "quick" else [1e30, 1., 0.1]
     for c1, c2, pref, mx in itertools.product(c1s, c2s, prefs, maxs):
@@ -69,13 +69,11 @@ def cases(tier, seed):
     lscf = ls_configs(tier)
     out = []
     if tier == "quick":
-        geoms = [(2, "u", 3)]                       # (dimension, domain kind, grid points per axis)
-        itlims = [15]
+        geoms = [(2, "u", 3, [15])]                 # (dimension, domain kind, grid points per axis, iteration limits)
     else:
-        geoms = [(2, "u", 5), (3, "m", 3)]
-        itlims = [3, 15, 40]
+        geoms = [(2, "u", 5, [3, 40]), (3, "m", 3, [15])]
     # ---- direct line searches
-    for (d, dom, npts) in geoms:
+    for (d, dom, npts, itlims) in geoms:
         for pname in P.PROBLEMS:
             prob = P.problem(pname, d, seed)
             for start in P.start_grid(prob, npts, seed):
@@ -87,7 +85,7 @@ def cases(tier, seed):
                             out.append(dict(kind="ls", prob=pname, d=d, dom=dom, seed=seed, start=start,
                                             direction=direc, fkm1=fk, ls=ls))
     # ---- minimiser runs
-    for (d, dom, npts) in geoms:
+    for (d, dom, npts, itlims) in geoms:
         for pname in P.PROBLEMS:
             prob = P.problem(pname, d, seed)
             for itlim in itlims:
@@ -98,12 +96,11 @@ def cases(tier, seed):
                                             minimizer=mini, itlim=itlim, ls=ls))
     # ---- BFGS histories
     if tier == "quick":
-        hspecs = [(3, 7, (2, 5)), ]                 # (points, history length, max_history_length values)
-        kappas, dims = (1., 10.), (3,)
+        # (points, history length, max_history_length values, condition numbers, dimensions)
+        hspecs = [(3, 7, (2, 5), (1., 10.), (3,))]
     else:
-        hspecs = [(3, 9, (1, 2, 3, 5)), (4, 8, (1, 2, 3, 5, 7))]
-        kappas, dims = (1., 10., 100.), (3, 5)
-    for nsym, length, mhs in hspecs:
+        hspecs = [(3, 9, (1, 2, 3, 5), (10.,), (3, 5)), (4, 7, (2, 3, 5), (1., 100.), (4,))]
+    for nsym, length, mhs, kappas, dims in hspecs:
         for hist in P.histories(nsym, length, with_reset=True):
             for mh in mhs:
                 for kappa in kappas:
